@@ -130,7 +130,8 @@ def change_mtu(run, c, r):
     if not run.open(c) or any(e is None or e.outgoing_messages or e.pending_retry or e.received_fragments for e in ends):
         return False
     old_mtu, old_maxp, old_frag = P.MTU, P.MAX_PAYLOAD_SIZE, P.MAX_FRAGMENT_SIZE
-    new_mtu = r.choice([m for m in (512, 576, 800, 1000, 1095, 1096, 1200, 1400, 1500) if m != old_mtu])
+    # (1085..1105: around the MTU at which the fragment size formula switches from "datagram capacity - 6" to 1024)
+    new_mtu = r.choice([m for m in (512, 576, 800, 1000, 1200, 1400, 1500) + tuple(range(1085, 1106)) if m != old_mtu])
     P.setMTU(new_mtu)
     run.mtu = new_mtu
     run.c.inc("mtu_changes_on_open_connections")
@@ -197,7 +198,7 @@ def run_faults(cfg, out, props=None, tag="C05", profiles_pool=None, extra=None):
         dt = r.choice([1 / 60, 1 / 60, 1 / 30, 1 / 120])
         # configurations: defaults mostly; sometimes other keep-alive (= resend) intervals and message timeouts,
         # including a keep-alive interval LONGER than the message timeout
-        conf = r.choice([None, None, (0.5, 0.3), (2.0, 1.0), (0.1, 0.05), (0.25, 2.0), (1.0, 0.5)])
+        conf = r.choice([None, None, (0.5, 0.3), (2.0, 1.0), (0.1, 0.05), (0.25, 2.0), (1.0, 0.5), (0.1, 3.0)])
 
         def setup(ctxt, conf=conf):
             ctxt.setConnectionTimeout(30.0)
@@ -262,6 +263,9 @@ def run_faults(cfg, out, props=None, tag="C05", profiles_pool=None, extra=None):
                 w.handler.on.setdefault("message", []).append(raiser)
                 run.c.inc("worlds_with_raising_handler")
             c.updates_per_step = r.choice([1, 2, 2])
+            if r.random() < 0.35:
+                c.sock.fail_rate = 0.01               # now and then the client's sendto() fails with ENOBUFS
+                run.c.inc("worlds_with_failing_sendto")
             if r.random() < 0.5:
                 run.app.raising_callbacks = True      # every fifth send callback raises after recording its result
                 run.c.inc("worlds_with_raising_callbacks")
@@ -326,6 +330,18 @@ def run_faults(cfg, out, props=None, tag="C05", profiles_pool=None, extra=None):
                             run.c.inc("sends_from_send_callback")
                     rec = run.app.send(ep, side, 24, -1, with_cb=True, extra_cb=chain)
                 w.step(r.randint(5, 30))
+            # --- a broadcast-like burst: several fragmented payloads of the SAME length are sent in one tick and the application keeps
+            #     no reference to any of them (each new payload is likely to be allocated where the previous one was)
+            if run.open(c):
+                for side in ("client", "server"):
+                    ep = c if side == "client" else run.sconn(c)
+                    if ep is None:
+                        continue
+                    size = r.choice([P.MAX_PAYLOAD_SIZE + 1, 2 * P.MAX_FRAGMENT_SIZE + 11, 3000, 5 * P.MAX_FRAGMENT_SIZE])
+                    for _k in range(r.randint(3, 6)):
+                        run.app.send(ep, side, size, r.choice([-1, -1, 0]), with_cb=False, keep_payload=False)
+                    run.c.inc("same_length_bursts_without_references")
+                w.step(r.randint(20, 60))
             # --- the callback of the FIRST message of a datagram raises: the messages packed behind it still get their results -
             #     once over a clean link (ack path), once into an outage longer than the message timeout (timeout path: the
             #     guaranteed ones behind it must still be re-sent)
@@ -447,6 +463,42 @@ def run_faults(cfg, out, props=None, tag="C05", profiles_pool=None, extra=None):
                 run.c.inc("reordered_ack_path_streams")
                 w.net.heal(0.004)
                 w.step(int(1.2 / w.dt))
+            # --- a message of several hundred fragments from a sender that calls update() many times per frame: the acks of the
+            #     first 0.7 s are lost (those fragments are sent again a second later, by then more than 256 messages behind the
+            #     receiver's newest) and one late fragment is lost once, so the message is still incomplete when the copies arrive
+            if run.open(c) and not conf and r.random() < 0.25:
+                ups = c.updates_per_step
+                c.updates_per_step = 8
+                nfrag = r.randint(280, 340)
+                rec = run.app.send(c, "client", nfrag * P.MAX_FRAGMENT_SIZE + 77, -1, api=r.choice(["send", "send_guaranteed"]), with_cb=True)
+                if rec.get("nmsgs"):
+                    late = (rec["msgseq_first"] - 1 + rec["nmsgs"] - r.randint(3, 20)) % 65535 + 1
+                    f = KthLoss(run, rec["conn"], [late], 1, "c2s", ack_drops=0)
+                    w.net.filters.append(f)
+                    w.net.set(c2s=L.Policy(delay=(0.004, 0.004)), s2c=L.Policy(outage=True))
+                    w.step(int(0.7 / w.dt))
+                    w.net.set(s2c=L.Policy(delay=(0.004, 0.004)))
+                    w.run_until(lambda ww: bool(rec["cb"]), int(8.0 / w.dt))
+                    w.net.filters.remove(f)
+                    run.c.inc("huge_message_scenarios")
+                c.updates_per_step = ups
+                w.step(30)
+            # --- a long haul: with a message timeout of 2-3 s configured on both sides, a sustained round trip of 1.2-1.6 s is a
+            #     working link (every ack arrives in time): many seconds of steady traffic both ways, measured latency above 0.5 s
+            if run.open(c) and conf and conf[1] >= 2.0:
+                one_way = r.uniform(0.6, min(0.8, conf[1] / 2 - 0.15))
+                w.net.set(c2s=L.Policy(delay=(one_way, one_way + 0.02)), s2c=L.Policy(delay=(one_way, one_way + 0.02)))
+                for _t in range(int(9.0 / w.dt)):
+                    if _t % 6 == 0:
+                        for side in ("client", "server"):
+                            ep = c if side == "client" else run.sconn(c)
+                            if ep is not None:
+                                run.app.send(ep, side, r.choice([11, 40, 200]), r.choice([0, 0, -1]), with_cb=True)
+                    w.step()
+                run.c.inc("long_haul_phases")
+                run.c.inc("long_haul_latency_above_half_a_second" if c.udp.conn.latency > 0.5 else "long_haul_latency_low")
+                w.net.heal(0.004)
+                w.step(int((conf[1] + 0.5) / w.dt))
             # --- storm
             pool = profiles_pool or ["lossy", "dup", "reorder", "slow", "acks-lost", "hostile", "very-slow"]
             profiles = [r.choice(pool) for _ in range(r.randint(1, 4))]
@@ -547,7 +599,7 @@ def finish(tier, seed, results):
                          "worlds_keep_alive_longer_than_message_timeout", "sends_from_connect_callback", "sends_from_send_callback",
                          "worlds_with_counters_near_wrap", "shared_callback_batches", "aged_sessions_fragment_ids_reused",
                          "gap_scenarios_over_32_datagrams", "reordered_ack_path_streams", "handler_raised_in_message", "client_disconnects_with_retransmissions_in_flight",
-                         "second_session_messages_ok", "worlds_with_three_clients", "mtu_raised", "mtu_lowered", "callbacks_raised", "first_callback_of_datagram_raised", "sends_while_connecting"], inconclusive)
+                         "second_session_messages_ok", "worlds_with_three_clients", "mtu_raised", "mtu_lowered", "callbacks_raised", "first_callback_of_datagram_raised", "sends_while_connecting", "client_sendto_failed", "long_haul_latency_above_half_a_second", "same_length_bursts_without_references", "huge_message_scenarios"], inconclusive)
     cov = {
         "evaluations": m["evaluations"],
         "distinct_nontrivial": m["distinct_nontrivial"],
